@@ -26,6 +26,13 @@ CLAIMED["C04"] = dict(
          "unsat query per output cell; linearity with free alpha, beta; periodic rings against the wrap-around centred difference.",
     ref="DESIGN.md section 2 / C04",
 )
+CLAIMED["C06"] = dict(
+    text="Field.integrate (total, directional, cumulative), Field.mean (none/one/several directions) and operators.integrate run "
+         "symbolically with free geometry and free cell values; independent python folds give the expected sums; Fubini for every "
+         "order, cumulative/total relation, reduced-mesh geometry, linearity with free alpha/beta, translation invariance and "
+         "consistency after an in-place rescale are unsat queries per output element.",
+    ref="DESIGN.md section 2 / C06",
+)
 PENDING_REASON = "check not built yet in this round (planned: DESIGN.md section 2); not claimed until it runs green"
 NA = {}
 
